@@ -51,6 +51,10 @@ struct Ledger
     bool in_library_call = false;  // raised around library calls (C07: operator new bypass detection)
     uint64_t new_in_library_call = 0;  // operator new reached from inside a library call, not through harness code
     void (*release_hook)(uintptr_t base, size_t bytes) = nullptr;
+    // what LedgerAlloc::max_size() reports, in bytes (an engine that knows how much a case can legitimately request sets it
+    // to a small multiple of that: a library that consults max_size() must get the units right)
+    size_t max_bytes = static_cast<size_t>(-1) / 4;
+    uint64_t requests_over_max = 0;
 
     static Ledger& get()
     {
@@ -80,6 +84,7 @@ struct Ledger
             }
             --fail_countdown;
         }
+        if (bytes > max_bytes) ++requests_over_max;
         const size_t a = align < 1 ? 1 : align;
         const size_t raw_bytes = bytes + 2 * SLACK + 4 * a + 32;
         auto* raw = static_cast<unsigned char*>(std::malloc(raw_bytes));
@@ -337,6 +342,8 @@ struct LedgerAlloc : ArenaHolder<K::HAS_IDENTITY>
     int ledger_arena() const noexcept { return K::ALWAYS_EQUAL ? 0 : this->get_arena(); }
     T* allocate(std::size_t n) { return static_cast<T*>(ledger().allocate(ledger_arena(), tag_of<T>(), n * sizeof(T), alignof(T))); }
     void deallocate(T* p, std::size_t n) noexcept { ledger().deallocate(ledger_arena(), tag_of<T>(), p, n * sizeof(T)); }
+
+    std::size_t max_size() const noexcept { return ledger().max_bytes / sizeof(T); }
 
     LedgerAlloc select_on_container_copy_construction() const
     {
